@@ -144,6 +144,8 @@ class RF24:
             for byte in buf:
                 result.append(self.send(byte, ask_no_ack, force_retry, send_only))
             return result
+        if self.dynamic_payloads and not 1 <= len(buf) <= 32:
+            raise ValueError("buffer length must be in range [1, 32]")
         if self._status & 0x10 or self._status & 1:
             self.flush_tx()
         if not send_only and self._status >> 1 & 7 < 6:
